@@ -55,7 +55,7 @@ package runner
 
 // ---- the pieces of (*TaskRunner).Run
 // runnerOK: the runner's containers exist and every registered context has an environment
-//@ pred runnerOK(r *TaskRunner) := r != nil && r.Stdout != nil && r.ctx != nil && r.compiler != nil && r.compiler.variables != nil && r.variables != nil && r.env != nil && (forall k string :: k in r.contexts ==> r.contexts[k] != nil && r.contexts[k].Env != nil && r.contexts[k].Variables != nil)
+//@ pred runnerOK(r *TaskRunner) := r != nil && r.Stdout != nil && r.ctx != nil && r.cancelFunc != nil && r.compiler != nil && r.compiler.variables != nil && r.variables != nil && r.env != nil && (forall k string :: k in r.contexts ==> r.contexts[k] != nil && r.contexts[k].Env != nil && r.contexts[k].Variables != nil)
 //@ pred taskOK(t *task.Task) := t != nil && t.Env != nil && t.Variables != nil
 
 //@ func (*TaskRunner).contextForTask
@@ -212,10 +212,19 @@ package runner
 
 //@ func (*TaskRunner).Run
 //@   ghostlocal gCaptured io.Writer
-//@   waive safe.close "C12 (cancellation safety) is not claimed: with two runs in flight a Cancel makes both close doneCh"
 //@   requires runnerOK(r) && taskOK(t) && compiledClosed()
 //@   modifies *
 //@   effect no lock-held at execute
+// C12 (safety half): a run registers itself with the runner (for Cancel to wait for) only while
+// cancellation has not begun, un-registers exactly once on every path, and once cancellation has
+// begun it returns the context's error without resolving a context, creating output or running anything
+//@   effect no lock-held at contextForTask
+//@   ensures #C12.nothing-starts-after-cancellation old(r.canceling) ==> result != nil && calls(contextForTask) == 0 && calls(NewTaskOutput) == 0 && calls(checkTaskCondition) == 0 && calls(before) == 0 && calls(execute) == 0 && calls(after) == 0
+//@   ensures #C12.registered-runs-unregister calls(Add) == calls(Done) && calls(Add) <= 1
+//@   callsite Add
+//@     requires #C12.registers-only-before-cancellation !r.canceling && calls(Add) == 0 && arg0 == 1
+//@   callsite Err
+//@     assume old(r.canceling) ==> result != nil // Cancel cancels the context under the write lock before `canceling` becomes visible to a reader: a cancelled context reports an error for ever
 //@   ensures #C07.success-records-zero result == nil && !t.Skipped && !old(t.Errored) ==> t.ExitCode == 0 && !t.Errored
 //@   ensures #C07.execute-failure-reported calls(execute) == 1 && gExecErr != nil ==> result != nil
 //@   ensures #C06.skipped-ran-nothing-else calls(checkTaskCondition) == 1 && !gCondMet && gCondErr == nil ==> result == nil && t.Skipped && calls(before) == 0 && calls(CompileTask) == 0 && calls(execute) == 0 && calls(after) == 0
@@ -308,11 +317,20 @@ package runner
 //@   modifies *
 // ghost: the runner's (only) context has been cancelled — Run refuses to start from then on
 //@ ghost ctxCancelled map[*TaskRunner]bool
-// Cancel: ASSUMED (mutex, channel hand-shake): cancels the runner context; nothing else the contracts talk about changes
+// the mark and the ghost go together: both are set, under the write lock, by the one Cancel that cancels the context
+//@ globalinv #marked-runners-are-cancelled forall x *TaskRunner :: x != nil && x.canceling ==> ctxCancelled[x]
+// Cancel (C12, safety half): cancels the runner's context at most once, marks the runner, and waits for the
+// registered runs only AFTER it has released the mutex (a run needs the read lock to un-register: waiting with
+// the lock held would deadlock); there is no channel left to close twice
 //@ func (*TaskRunner).Cancel
-//@   requires r != nil
+//@   requires runnerOK(r)
 //@   modifies ctxCancelled, r.canceling
-//@   ensures ctxCancelled[r] && (forall x *TaskRunner :: old(ctxCancelled[x]) ==> ctxCancelled[x])
+//@   ensures ctxCancelled[r] && r.canceling && (forall x *TaskRunner :: old(ctxCancelled[x]) ==> ctxCancelled[x])
+//@   ensures #C12.marked-runners-are-cancelled forall x *TaskRunner :: x != nil && x.canceling ==> ctxCancelled[x]
+//@   ensures #C12.context-cancelled-at-most-once (old(r.canceling) ==> calls(cancelFunc) == 0) && calls(cancelFunc) <= 1
+//@   effect no lock-held at Wait
+//@   callsite funcvalue:cancelFunc
+//@     ghost ctxCancelled[r] = true
 //@ func NewTaskRunner
 //@   modifies *
 //@   ensures result#1 == nil ==> result != nil
